@@ -385,6 +385,18 @@ func ZipSizeBoundaryArchive(r *rand.Rand, m module.Version) []ZipArchEntry {
 	return es
 }
 
+// zipSiblingDir derives from a directory path a sibling whose name shares its text: a suffix
+// sorting before '/' ("-x", ".v2", "+", ...) appended to the last element, or the last element
+// truncated.
+func zipSiblingDir(r *rand.Rand, dir string) string {
+	i := strings.LastIndex(dir, "/")
+	parent, last := dir[:i+1], dir[i+1:]
+	if len(last) > 1 && r.Intn(3) == 0 {
+		return parent + last[:1+r.Intn(len(last)-1)]
+	}
+	return dir + pick(r, "-x", ".v2", "+", "-gen", " 2", ",1", "!", "#1", "x", "2/http")
+}
+
 // ValidModuleFileList draws a list zip.Create accepts (distinct well-formed paths, regular
 // files with honest sizes, no nested module; a go.mod at the root most of the time, vendor
 // and upper-case directories allowed as long as nothing collides).
@@ -416,6 +428,23 @@ func ValidModuleFileList(r *rand.Rand) []ZipFileSpec {
 		dirs := []string{"", "", "a/", "b/", "pkg/", "a/b/", "vendor/", "Pkg2/", "\u00e9/"}
 		names := []string{"x.go", "y.go", "main.go", "doc.txt", "LICENSE", "README", "z", "w.go", "modules.txt", "q.s"}
 		add(dirs[r.Intn(len(dirs))] + names[r.Intn(len(names))])
+	}
+	// sibling directories whose names share their text with an existing one, before or after it
+	for k := r.Intn(3); k > 0 && len(fs) > 0; k-- {
+		q := fs[r.Intn(len(fs))].P
+		i := strings.LastIndex(q, "/")
+		if i <= 0 {
+			q, i = "cmd/tool/"+q, len("cmd/tool")
+		}
+		before := len(fs)
+		add(zipSiblingDir(r, q[:i]) + "/" + pick(r, "main.go", "x.go", "sub/y.go"))
+		if i == len("cmd/tool") && strings.HasPrefix(q, "cmd/tool/") {
+			add(q)
+		}
+		if len(fs) > before && r.Intn(2) == 0 {
+			// move the new files to the front: the longer name is then created first
+			fs = append(append([]ZipFileSpec(nil), fs[before:]...), fs[:before]...)
+		}
 	}
 	return fs
 }
@@ -657,6 +686,13 @@ func ZipHostileArchive(r *rand.Rand, m module.Version) []ZipArchEntry {
 	for len(es) < n {
 		var name string
 		switch k := r.Intn(100); {
+		case calm && len(es) > 0 && r.Intn(3) == 0:
+			q := strings.TrimSuffix(strings.TrimPrefix(es[r.Intn(len(es))].Name, prefix), "/")
+			if i := strings.LastIndex(q, "/"); i > 0 {
+				name = zipSiblingDir(r, q[:i]) + "/" + pick(r, "main.go", "x.go", "sub/y.go")
+			} else {
+				name = ZipRelPath(r, false)
+			}
 		case calm || k < 40:
 			name = ZipRelPath(r, false)
 		case k < 48 && len(es) > 0:
